@@ -57,6 +57,20 @@ func (e *engine) structuralObligations(prop string) []*oblig {
 		out = append(out, e.neverClosedObligations([]string{prop})...)
 	}
 	switch prop {
+	case "C15", "C10", "C05", "C16", "C08", "C06", "C13", "C04":
+		out = append(out, e.ownershipObligations([]string{prop})...)
+	}
+	switch prop {
+	case "C10", "C12":
+		out = append(out, e.blockingObligations([]string{prop})...)
+	}
+	if len(e.db.nonnilGlobal) > 0 {
+		switch prop {
+		case "C03", "C12", "C14":
+			out = append(out, e.nonnilGlobalObligations([]string{prop})...)
+		}
+	}
+	switch prop {
 	case "C17", "C18", "C19":
 		out = append(out, e.immutabilityObligations([]string{"C17", "C18", "C19"})...)
 	}
@@ -131,8 +145,17 @@ func (e *engine) immutabilityObligations(props []string) []*oblig {
 					if !e.db.immutable[k] {
 						continue
 					}
-					if a, ok := fa.X.(*ssa.Alloc); ok && a.Heap {
-						continue // store into an object allocated right here
+					var root ssa.Value = fa.X
+					for {
+						inner, ok := root.(*ssa.FieldAddr)
+						if !ok {
+							break
+						}
+						root = inner.X
+					}
+					if a, ok := root.(*ssa.Alloc); ok {
+						_ = a
+						continue // store into an object (or a local value) allocated right here
 					}
 					bad["immutable."+k] = append(bad["immutable."+k], fmt.Sprintf("%s assigns the field at %s", canonName(fn), e.posStr(i.Pos())))
 				case *ssa.MapUpdate:
@@ -223,3 +246,424 @@ func (e *engine) neverClosedObligations(props []string) []*oblig {
 	}
 	return out
 }
+
+// nonnilGlobalObligations: the variable is assigned exactly once, in the package initialiser,
+// with the result of errors.New / fmt.Errorf (which never return nil).
+func (e *engine) nonnilGlobalObligations(props []string) []*oblig {
+	var keys []string
+	for k := range e.db.nonnilGlobal {
+		keys = append(keys, k)
+	}
+	sort.Strings(keys)
+	var out []*oblig
+	for _, k := range keys {
+		var problems []string
+		inits := 0
+		for _, fn := range e.allRepoFuncs() {
+			for _, b := range fn.Blocks {
+				for _, ins := range b.Instrs {
+					st, ok := ins.(*ssa.Store)
+					if !ok {
+						continue
+					}
+					g, ok := st.Addr.(*ssa.Global)
+					if !ok || trimPath(g.Pkg.Pkg.Path())+"."+g.Name() != k {
+						continue
+					}
+					if fn.Name() != "init" {
+						problems = append(problems, fmt.Sprintf("assigned in %s at %s", canonName(fn), e.posStr(st.Pos())))
+						continue
+					}
+					inits++
+					call, ok := st.Val.(*ssa.Call)
+					okInit := false
+					if ok {
+						if f, ok := call.Call.Value.(*ssa.Function); ok {
+							n := canonName(f)
+							okInit = n == "errors.New" || n == "fmt.Errorf"
+						}
+					}
+					if !okInit {
+						problems = append(problems, fmt.Sprintf("initialised with something other than errors.New/fmt.Errorf at %s", e.posStr(st.Pos())))
+					}
+				}
+			}
+		}
+		if inits != 1 {
+			problems = append(problems, fmt.Sprintf("%d initialising stores found (want 1)", inits))
+		}
+		out = append(out, e.structOblig("nonnil-global."+k, props, len(problems) == 0, "assigned once, by the package initialiser, with errors.New / fmt.Errorf", strings.Join(problems, "\n"), token.NoPos))
+	}
+	return out
+}
+
+// ownershipObligations (confinement, DESIGN.md section 3.5): the fields declared owned by an actor
+// loop are touched only by functions that can run only on that actor's goroutine — the owner
+// itself and functions all of whose call sites lie in such functions — or by the constructor on
+// the object it has just allocated; and the owner is spawned by exactly one go statement.
+func (e *engine) ownershipObligations(props []string) []*oblig {
+	var owners []string
+	for o := range e.db.owners {
+		owners = append(owners, o)
+	}
+	sort.Strings(owners)
+	funcs := e.allRepoFuncs()
+	// static call sites: callee -> callers (call and defer; go statements counted separately)
+	callers := map[*ssa.Function][]*ssa.Function{}
+	spawns := map[*ssa.Function][]string{}
+	addr := map[*ssa.Function]bool{} // function used as a value (could be called from anywhere)
+	for _, fn := range funcs {
+		for _, b := range fn.Blocks {
+			for _, ins := range b.Instrs {
+				var c *ssa.CallCommon
+				isGo := false
+				switch i := ins.(type) {
+				case *ssa.Call:
+					c = &i.Call
+				case *ssa.Defer:
+					c = &i.Call
+				case *ssa.Go:
+					c = &i.Call
+					isGo = true
+				}
+				if c != nil {
+					if callee, ok := c.Value.(*ssa.Function); ok {
+						if isGo {
+							spawns[callee] = append(spawns[callee], fmt.Sprintf("%s at %s", canonName(fn), e.posStr(ins.Pos())))
+						} else {
+							callers[callee] = append(callers[callee], fn)
+						}
+					}
+				}
+				for _, op := range ins.Operands(nil) {
+					if f, ok := (*op).(*ssa.Function); ok {
+						if c == nil || c.Value != f {
+							addr[f] = true
+						}
+					}
+				}
+			}
+		}
+	}
+	var out []*oblig
+	for _, oname := range owners {
+		owner := e.funcByName[oname]
+		fields := e.db.owners[oname]
+		sort.Strings(fields)
+		if owner == nil {
+			out = append(out, e.structOblig("owner."+oname, props, false, "owner function exists", "owner function not found in /repo", token.NoPos))
+			continue
+		}
+		// confined: functions that can only run as part of the owner
+		confined := map[*ssa.Function]bool{owner: true}
+		for changed := true; changed; {
+			changed = false
+			for _, fn := range funcs {
+				if confined[fn] || addr[fn] || len(callers[fn]) == 0 || len(spawns[fn]) > 0 {
+					continue
+				}
+				if fn.Parent() != nil {
+					continue
+				}
+				all := true
+				for _, c := range callers[fn] {
+					if !confined[c] {
+						all = false
+					}
+				}
+				// methods can also be reached through interfaces: only unexported-method receivers of
+				// unexported types are considered, and only if no interface in /repo has a method of that name
+				if all && e.reachableViaInterface(fn) {
+					all = false
+				}
+				if all {
+					confined[fn] = true
+					changed = true
+				}
+			}
+		}
+		isField := map[string]bool{}
+		for _, f := range fields {
+			isField[f] = true
+		}
+		var problems []string
+		for _, fn := range funcs {
+			for _, b := range fn.Blocks {
+				for _, ins := range b.Instrs {
+					fa, ok := ins.(*ssa.FieldAddr)
+					if !ok {
+						continue
+					}
+					stt := fa.X.Type().Underlying().(*types.Pointer).Elem()
+					k := typeName(stt) + "." + stt.Underlying().(*types.Struct).Field(fa.Field).Name()
+					if !isField[k] || confined[fn] {
+						continue
+					}
+					if a, ok := fa.X.(*ssa.Alloc); ok && a.Heap {
+						continue // the constructor initialising the object it has just allocated
+					}
+					problems = append(problems, fmt.Sprintf("%s touches %s at %s", canonName(fn), k, e.posStr(fa.Pos())))
+				}
+			}
+		}
+		out = append(out, e.structOblig("owner."+oname+".confinement", props, len(problems) == 0,
+			"fields "+strings.Join(fields, ", ")+" are touched only by "+oname+", functions called only from it, and the constructor on the freshly allocated object",
+			strings.Join(problems, "\n"), owner.Pos()))
+		out = append(out, e.structOblig("owner."+oname+".spawned-once", props, len(spawns[owner]) == 1 && len(callers[owner]) == 0 && !addr[owner],
+			"the owner runs on exactly one goroutine per object: one go statement in /repo, no ordinary call, never used as a value",
+			fmt.Sprintf("go statements: %v; ordinary callers: %d; used as value: %v", spawns[owner], len(callers[owner]), addr[owner]), owner.Pos()))
+	}
+	return out
+}
+
+// reachableViaInterface: could fn be the target of an interface method call from /repo code?
+func (e *engine) reachableViaInterface(fn *ssa.Function) bool {
+	if fn.Signature.Recv() == nil {
+		return false
+	}
+	name := fn.Name()
+	for _, t := range e.typeByName {
+		it, ok := t.Underlying().(*types.Interface)
+		if !ok {
+			continue
+		}
+		for i := 0; i < it.NumMethods(); i++ {
+			if it.Method(i).Name() == name && types.Implements(fn.Signature.Recv().Type(), it) {
+				return true
+			}
+		}
+	}
+	return false
+}
+
+// chanOrigin describes where a channel operand comes from, for the blocking-effect rules.
+func (e *engine) chanOrigin(v ssa.Value, depth int) (kind, detail string) {
+	if depth > 8 {
+		return "unknown", ""
+	}
+	switch x := v.(type) {
+	case *ssa.MakeChan:
+		if c, ok := x.Size.(*ssa.Const); ok && c.Int64() >= 1 {
+			return "made-buffered", ""
+		}
+		return "made-unbuffered", ""
+	case *ssa.Call:
+		s, _ := calleeShort(&x.Call)
+		return "call", s
+	case *ssa.Extract:
+		if sel, ok := x.Tuple.(*ssa.Select); ok {
+			_ = sel
+			return "received", ""
+		}
+		if c, ok := x.Tuple.(*ssa.Call); ok {
+			s, _ := calleeShort(&c.Call)
+			return "call", s
+		}
+		return e.chanOrigin(x.Tuple, depth+1)
+	case *ssa.UnOp:
+		if x.Op == token.MUL {
+			switch a := x.X.(type) {
+			case *ssa.FieldAddr:
+				stt := a.X.Type().Underlying().(*types.Pointer).Elem()
+				return "field", typeName(stt) + "." + stt.Underlying().(*types.Struct).Field(a.Field).Name()
+			case *ssa.Alloc:
+				// a local: look at what is stored into it
+				var kinds []string
+				det := a.Comment
+				for _, ref := range *a.Referrers() {
+					if st, ok := ref.(*ssa.Store); ok && st.Addr == a {
+						k, d := e.chanOrigin(st.Val, depth+1)
+						if k == "const-nil" {
+							continue
+						}
+						kinds = append(kinds, k+":"+d)
+					}
+				}
+				sort.Strings(kinds)
+				return "local", det + "<-" + strings.Join(uniqStrings(kinds), ",")
+			case *ssa.FreeVar:
+				return "captured", a.Name()
+			}
+		}
+		if x.Op == token.ARROW {
+			return "received", ""
+		}
+	case *ssa.Field:
+		return "field-of-value", x.X.Type().Underlying().(*types.Struct).Field(x.Field).Name()
+	case *ssa.Parameter:
+		return "param", x.Name()
+	case *ssa.Const:
+		return "const-nil", ""
+	case *ssa.ChangeType:
+		return e.chanOrigin(x.X, depth+1)
+	case *ssa.Phi:
+		return "phi", ""
+	}
+	return "unknown", fmt.Sprintf("%T", v)
+}
+
+func uniqStrings(in []string) []string {
+	var out []string
+	for i, s := range in {
+		if i == 0 || s != in[i-1] {
+			out = append(out, s)
+		}
+	}
+	return out
+}
+
+var lifecycleChans = map[string]bool{"ShuttingDown": true, "ShutdownRequest": true, "Done": true, "done": true}
+
+// blockingObligations (DESIGN.md section 3.5, blocking effects): every operation in /repo that
+// can block is one of the sanctioned shapes; channels facing a consumer are only ever sent on
+// from a select with a default branch.
+//   guarded-select   blocking select with a case on a lifecycle channel (ShuttingDown / ShutdownRequest / Done / donech / ctx.Done)
+//   reply-receive    bare receive from a buffered channel made in the same function (the reply to a request just handed over)
+//   join-wait        bare receive from x.Done() / donech: waiting for a component whose shutdown was requested
+//   reply-send       bare send on the reply channel carried by the request being served, or on a buffered channel made by the spawner
+//   timer            receive from a timer channel (covered by the ticker contract)
+//   range            for-range over a parent's event channel (terminates when the parent closes it)
+func (e *engine) blockingObligations(props []string) []*oblig {
+	var out []*oblig
+	nb := map[string][]string{}
+	for k := range e.db.nonblocking {
+		nb[k] = nil
+	}
+	type op struct {
+		fn   *ssa.Function
+		pos  token.Pos
+		desc string
+		ok   bool
+		cls  string
+	}
+	var ops []op
+	for _, fn := range e.allRepoFuncs() {
+		if strings.HasPrefix(canonName(fn), "join/gen") || strings.HasPrefix(canonName(fn), "types/gen") || strings.HasPrefix(canonName(fn), "testutil") || strings.HasPrefix(canonName(fn), "util") {
+			continue
+		}
+		fname := canonName(fn)
+		checkNB := func(ch ssa.Value, inNonBlockingSelect bool, pos token.Pos) {
+			k, d := e.chanOrigin(ch, 0)
+			key := ""
+			if k == "field" {
+				key = d
+			}
+			if k == "local" {
+				key = fname + ":" + strings.SplitN(d, "<-", 2)[0]
+			}
+			if _, declared := nb[key]; declared && !inNonBlockingSelect {
+				nb[key] = append(nb[key], fmt.Sprintf("%s sends on it outside a select with default at %s", fname, e.posStr(pos)))
+			}
+		}
+		for _, b := range fn.Blocks {
+			for _, ins := range b.Instrs {
+				switch i := ins.(type) {
+				case *ssa.Send:
+					checkNB(i.Chan, false, i.Pos())
+					k, d := e.chanOrigin(i.Chan, 0)
+					o := op{fn: fn, pos: i.Pos(), desc: fmt.Sprintf("send on %s %s", k, d)}
+					switch {
+					case k == "field-of-value" && d == "resultch", k == "field" && strings.HasSuffix(d, "equest.resultch"), k == "received", k == "local" && strings.Contains(d, "received"):
+						o.ok, o.cls = true, "reply-send"
+					case k == "captured" || k == "local" && strings.Contains(d, "made-buffered") || k == "made-buffered":
+						o.ok, o.cls = true, "reply-send (buffered channel made by the spawner)"
+					case k == "field" && d == "kcache.publisher.unsubscribech":
+						o.ok, o.cls = true, "unsubscribe (received by publisher.run in both of its loops)"
+					}
+					ops = append(ops, o)
+				case *ssa.UnOp:
+					if i.Op != token.ARROW {
+						continue
+					}
+					k, d := e.chanOrigin(i.X, 0)
+					o := op{fn: fn, pos: i.Pos(), desc: fmt.Sprintf("receive from %s %s", k, d)}
+					switch {
+					case k == "made-buffered" || k == "local" && strings.Contains(d, "made-buffered"):
+						o.ok, o.cls = true, "reply-receive"
+					case k == "call" && lifecycleChans[d] || k == "field" && strings.HasSuffix(d, ".donech") || k == "field" && strings.HasSuffix(d, ".stoppedch") || k == "local" && (strings.Contains(d, "call:Done") || strings.Contains(d, "call:done") || strings.Contains(d, "call:list")):
+						o.ok, o.cls = true, "join-wait"
+					case k == "captured" || k == "param":
+						o.ok, o.cls = true, "join-wait (channel handed in by the spawner)"
+					case k == "field" && d == "time.Timer.C":
+						o.ok, o.cls = true, "timer"
+					case k == "call" && d == "Events":
+						o.ok, o.cls = true, "range (ends when the parent closes its event channel)"
+					case k == "field" && d == "kcache.publisher.unsubscribech" && fname == "(*kcache.publisher).run":
+						o.ok, o.cls = true, "drain (unsubscribe requests of the remaining subscriptions)"
+					}
+					ops = append(ops, o)
+				case *ssa.Select:
+					for _, s := range i.States {
+						if s.Dir == types.SendOnly {
+							checkNB(s.Chan, !i.Blocking, s.Pos)
+						}
+					}
+					if !i.Blocking {
+						continue
+					}
+					o := op{fn: fn, pos: i.Pos(), desc: "blocking select"}
+					for _, s := range i.States {
+						if s.Dir == types.SendOnly {
+							continue
+						}
+						k, d := e.chanOrigin(s.Chan, 0)
+						if k == "call" && lifecycleChans[d] || k == "field" && (strings.HasSuffix(d, ".donech") || strings.HasSuffix(d, ".stoppingch") || strings.HasSuffix(d, ".stoppedch") || strings.HasSuffix(d, ".stopch")) ||
+							k == "local" && (strings.Contains(d, "call:Done") || strings.Contains(d, "call:done")) || k == "captured" {
+							o.ok, o.cls = true, "guarded-select"
+						}
+					}
+					if !o.ok {
+						for _, s := range i.States {
+							if k, d := e.chanOrigin(s.Chan, 0); s.Dir == types.RecvOnly && k == "call" && d == "Events" {
+								o.ok, o.cls = true, "parent-driven select (ends when the parent closes its event channel)"
+							}
+						}
+					}
+					ops = append(ops, o)
+				case *ssa.Next:
+					if !i.IsString {
+						if r, ok := i.Iter.(*ssa.Range); ok {
+							if _, isChan := r.X.Type().Underlying().(*types.Chan); isChan {
+								ops = append(ops, op{fn: fn, pos: i.Pos(), desc: "range over channel", ok: true, cls: "range"})
+							}
+						}
+					}
+				}
+			}
+		}
+	}
+	// one obligation per function: all its blocking operations are sanctioned
+	byFn := map[string][]op{}
+	var names []string
+	for _, o := range ops {
+		n := canonName(o.fn)
+		if _, ok := byFn[n]; !ok {
+			names = append(names, n)
+		}
+		byFn[n] = append(byFn[n], o)
+	}
+	sort.Strings(names)
+	for _, n := range names {
+		var bad, all []string
+		for _, o := range byFn[n] {
+			if o.ok {
+				all = append(all, fmt.Sprintf("%s: %s [%s]", e.posStr(o.pos), o.desc, o.cls))
+			} else {
+				bad = append(bad, fmt.Sprintf("%s: %s is not one of the sanctioned blocking shapes", e.posStr(o.pos), o.desc))
+			}
+		}
+		ob := e.structOblig("blocking."+n, props, len(bad) == 0, "every blocking channel operation is a sanctioned shape: "+strings.Join(all, "; "), strings.Join(bad, "\n"), byFn[n][0].fn.Pos())
+		out = append(out, ob)
+	}
+	var keys []string
+	for k := range nb {
+		keys = append(keys, k)
+	}
+	sort.Strings(keys)
+	for _, k := range keys {
+		out = append(out, e.structOblig("nonblocking-send."+k, props, len(nb[k]) == 0, "every send on this consumer-facing channel is a case of a select with a default branch", strings.Join(nb[k], "\n"), token.NoPos))
+	}
+	return out
+}
+
+func fnameIs(a, b string) bool { return a == b }
